@@ -116,3 +116,48 @@ func ZzC08MPEG4AudioHist() {
 		zzCover("error", err != nil)
 	}
 }
+
+// C07: from ANY decoder state, after one intact group of access units A, an
+// intact group B is returned intact exactly once (at its marker packets), with
+// only "more packets needed" inside a fragmented access unit.
+func ZzC07MPEG4Audio() {
+	P := zzParam("P", 8)
+	max := zzConcretize(zzIntIn("max", zzParam("MLO", 6), zzParam("MHI", 10)))
+	d := zzDecoder()
+	d.firstAUParsed = true
+	nf := zzConcretize(zzIntIn("nfrag", 0, 2))
+	for i := 0; i < nf; i++ {
+		f := zzBytes("frag", 1, 3)
+		d.fragments = append(d.fragments, f)
+		d.fragmentsSize += len(f)
+	}
+	d.fragmentNextSeqNum = zzU16("nextseq")
+	e := zzEncoder(max, zzU16("seq0"), 0x11223344, 96)
+	a := zzAUs("auA", P)
+	pa, _ := e.Encode(a)
+	for _, p := range pa {
+		d.Decode(p)
+	}
+	b := zzAUs("auB", P)
+	pb, _ := e.Encode(b)
+	pos := 0
+	for _, p := range pb {
+		out, err := d.Decode(p)
+		if !p.Marker {
+			zzAssert(err == ErrMorePacketsNeeded, "B: only 'more packets needed' inside a fragmented access unit")
+			continue
+		}
+		zzAssert(err == nil, "B: access units returned at the marker packet")
+		zzAssert(pos+len(out) <= len(b), "B: decoded access units stay inside the input")
+		if err == nil && pos+len(out) <= len(b) {
+			for j := range out {
+				zzAssert(zzBytesEq(out[j], b[pos+j]), "B: access unit intact")
+			}
+		}
+		pos += len(out)
+	}
+	zzAssert(pos == len(b), "B: every access unit returned exactly once")
+	zzAssert(zzInv(d), "decoder accounting invariant re-established")
+	zzCover("stale fragments", nf > 0)
+	zzCover("B in several packets", len(pb) > 1)
+}
